@@ -6,9 +6,17 @@ B1  every edge of the exhaustively enumerated bounded model (all interleavings o
     InterceptingLLUDPProxyProtocol / SOCKS5UDPTransport objects; after every event the datagrams
     handed to the (fake) asyncio datagram transport and the public session state are compared with
     the edge's `obs` / `dst`.  "valid message" edges cycle through every message template in both
-    directions.  Addresses and SOCKS header bytes come out of TLC (table record).
+    directions.  Addresses and SOCKS header bytes come out of TLC (table record).  Edges that differ
+    only in act.ch are the outcomes the property leaves to the implementation: any of them is accepted.
 B2  long random runs with random addresses are recorded byte for byte and validated by TLC
     (UdpProxy_Trace: TLC strips / builds the SOCKS framing itself and re-runs the actions).
+
+Features attached to violations (for known_findings.json):
+  B1: {"kind":"b1","clause":"sends"|"state","what":...,"act":"C"|"H"|..,"k":<class>,"after_self_addressed":bool[,"msg":<label>]}
+  B2: {"kind":"b2","clause":"C.sent"|"C.state"|"H.sent"|"H.state","k":<class>,"after_self_addressed":bool[,"msg":<label>]}
+  after_self_addressed: an earlier, well-formed viewer datagram of the same association was addressed
+  to that viewer's own address ("msg" is omitted then: every later viewer datagram is affected).
+  "<Name>/0" labels a message whose Variable blocks all have zero instances.
 """
 from __future__ import annotations
 
@@ -28,6 +36,7 @@ PROPS = ["GhostsRight", "ClaimRule", "DeliveredOnce", "UseCircuitRule", "Discard
 SOCKS_BAD = ("badrsv", "badfrag", "badatyp", "shortsocks")
 LLUDP_BAD = ("short", "unkmsg")
 KILL_NAMES = ("CloseCircuit", "DisableSimulator")
+KILL_KINDS = {"killc": "CloseCircuit", "killd": "DisableSimulator"}
 
 
 def _consts(c):
@@ -343,7 +352,10 @@ class World:
             return "UseCircuitCode", _with_pid(pool.ucc(rng, sid, aid, code), self._next_pid())
         if k in LLUDP_BAD:
             return k, pool.broken(rng, k)
-        src = {"kill": pool.kills, "banned": pool.banned, "badbody": pool.badbody}.get(k, pool.msgs)[dkey]
+        if k in KILL_KINDS:
+            src = [x for x in pool.kills[dkey] if x[0].split("/")[0] == KILL_KINDS[k]]
+        else:
+            src = {"banned": pool.banned, "badbody": pool.badbody}.get(k, pool.msgs)[dkey]
         self.cursor += 1
         name, data = src[self.cursor % len(src)]
         return name, _with_pid(data, self._next_pid())
@@ -471,7 +483,7 @@ def _judge(w: World, lay, e, pl, sends, raised, pr):
         what = "not forwarded" if not sends and exp else "forwarded but must be discarded" if sends and not exp \
             else "duplicated" if len(sends) > len(exp) else "wrong datagram"
         if sends and exp and len(sends) == len(exp):
-            (v1, d1, t1), (v2, d2, t2) = sends[0], exp[0]
+            (v1, _, t1), (v2, _, t2) = sends[0], exp[0]
             what = "wrong destination" if t1 != t2 else "wrong socket" if v1 != v2 else "content changed"
         bad.append({"clause": "sends", "what": what, "expected": [(v, d.hex(), t) for v, d, t in exp],
                     "got": [(v, d.hex(), t) for v, d, t in sends], "raised": raised})
@@ -664,7 +676,7 @@ def _features(f):
     act = f["act"]
     feat = {"kind": "b1", "clause": m["clause"], "what": m["what"], "act": act["n"], "k": act["k"],
             "after_self_addressed": f["after_self_addressed"]}
-    if act["k"] in ("msg", "kill", "banned", "badbody", "ucc") and not f["after_self_addressed"]:
+    if act["k"] in ("msg", "killc", "killd", "banned", "badbody", "ucc") and not f["after_self_addressed"]:
         feat["msg"] = f["label"]
     return feat
 
@@ -705,8 +717,8 @@ def _b1(chk: Check, consts, label, layouts=(0, 1)):
     used = set()
     for r in results:
         used |= r[2]
-    names = {u[2] for u in used if u[1] in ("msg", "kill", "banned", "ucc")}
-    chk.cov["b1_message_templates_forwarded_or_discarded"] = max(chk.cov.get("b1_message_templates_forwarded_or_discarded", 0), len(names))
+    names = {u[2] for u in used if u[1] in ("msg", "killc", "killd", "banned", "ucc")}
+    chk.cov["b1_message_labels_used"] = max(chk.cov.get("b1_message_labels_used", 0), len(names))
     for e in g.edges:
         if e["obs"]["sends"] or e["src"] != e["dst"]:
             chk.nontrivial(("edge", label, e["_s"], common.skey(e["act"])))
@@ -714,9 +726,6 @@ def _b1(chk: Check, consts, label, layouts=(0, 1)):
     if skipped:
         chk.notes.append("B1 %s: %d (state, layout) pairs are not reached by this implementation (other branch of a "
                          "choice the property leaves open)" % (label, skipped))
-    if skipped > len(tasks) // 2:
-        chk.violation("B1 %s: most model states are unreachable in the implementation" % label,
-                      {"kind": "b1-unreachable"}, {"skipped": skipped, "of": len(tasks)})
     byfeat = collections.OrderedDict()
     for _, fails, _, _ in results:
         for f in fails:
@@ -727,6 +736,9 @@ def _b1(chk: Check, consts, label, layouts=(0, 1)):
         chk.violation("B1 %s: %s (%s %s %s%s)" % (label, f["mismatches"][0]["what"], f["act"]["n"], f["act"]["k"], f["label"],
                                                  ", after a datagram addressed to the viewer itself" if f["after_self_addressed"] else ""),
                       _features(f), dict(f, failing_cases_with_these_features=len(fl)))
+    if skipped > len(tasks) // 2 and not byfeat:
+        raise common.MachineryError("B1 %s: %d of %d states are not reached by this implementation and no edge it does take "
+                                    "is wrong: the replay is vacuous" % (label, skipped, len(tasks)))
     e = next((x for x in g.edges if x["obs"]["sends"] and x["act"]["n"] == "H"), g.edges[0])
     chk.sample({"binding": "B1 edge replay", "path": [p["act"] for p in _path_to(e["_s"])] + [e["act"]],
                 "expected_output": e["obs"], "expected_state": e["dst"]})
@@ -825,7 +837,7 @@ def _walk(pool: Pool, seed, NA, NS, NH, length):
             elif not has_circ and rng.random() < 0.7:
                 k = "ucc"
             else:
-                k = rng.choice(["msg"] * 12 + ["ucc", "ucc", "kill"])
+                k = rng.choice(["msg"] * 12 + ["ucc", "ucc", rng.choice(["killc", "killd"])])
             s = 0
             if k == "ucc":
                 # a viewer names its own session once it holds one (value read from the real object)
@@ -854,7 +866,7 @@ def _walk(pool: Pool, seed, NA, NS, NH, length):
                 stats["discards"] += 1
         else:
             k = rng.choice(LLUDP_BAD + ("badbody", "banned", "spoof")) if rng.random() < p_garbage \
-                else rng.choice(["msg"] * 15 + ["kill", "ucc"])
+                else rng.choice(["msg"] * 15 + [rng.choice(["killc", "killd"]), "ucc"])
             s = 0
             if k == "spoof" and unk["ip"] == clients[a - 1]["ip"]:
                 k = "unkmsg"
@@ -936,7 +948,8 @@ def _b2(chk: Check, n_walks, length, label):
             if common.skey(feat) in seen:
                 continue
             seen.add(common.skey(feat))
-            chk.violation("B2 %s: %s" % (label, " ".join(parts[:3])), feat,
+            chk.violation("B2 %s: %s%s" % (label, " ".join(parts[:3]), ", after a datagram addressed to the viewer itself"
+                                           if feat.get("after_self_addressed") else ""), feat,
                           {"failed_clauses": fl[:5], "cfg": traces[tid][0], "event": _clip_trace([ex] if ex else []),
                            "before": _clip_trace(traces[tid][max(1, int(parts[3]) - 4):int(parts[3])] if ex else [])})
     names = set()
@@ -944,7 +957,7 @@ def _b2(chk: Check, n_walks, length, label):
         names |= stats["names"]
         if stats["fwd_c"] >= 3 and stats["fwd_h"] >= 3 and stats["discards"] >= 3:
             chk.nontrivial(("walk", label, i))
-    chk.cov["b2_message_templates_forwarded"] = max(chk.cov.get("b2_message_templates_forwarded", 0), len(names))
+    chk.cov["b2_message_labels_forwarded"] = max(chk.cov.get("b2_message_labels_forwarded", 0), len(names))
     ok = next((i for i in range(len(traces)) if i not in fails), 0)
     chk.sample({"binding": "B2 trace (first events)", "events": [
         {k: (v[:16] + ["..."] if isinstance(v, list) and len(v) > 16 and k == "data" else v) for k, v in e.items() if k != "sent"}
